@@ -101,7 +101,12 @@ void prop(DP &dp, const ref::Bytes &sched, Ctx &ctx) {
 	n.prepare(dp, sched, o);
 	unsigned flush = dp.chance(128) ? 5 : 0;
 	ctx.desc << "C10 " << (free_run ? "[free-running/TSan] " : "[scheduled] ") << n.c.summary() << "\n bus: " << n.bus.describe() << " auto-flush=" << flush << "ms\n";
-	if (n.start(flush) != 0) ctx.fail("START: valid configuration rejected");
+	if (n.start(flush) != 0) {
+		// free-running flavour: the connection probe of bidib_start has a (scaled) wall-clock timeout; on a loaded machine the
+		// receiver thread may simply not have run in time. That says nothing about thread safety: the case is inconclusive.
+		if (free_run) { ctx.tag("inconclusive:start-timed-out-under-load"); return; }
+		ctx.fail("START: valid configuration rejected");
+	}
 	n.s.settle();
 	n.bus.silent = true;
 	Session::drain_messages();
